@@ -2,7 +2,7 @@
    Only statements here; every proof is `exact <lemma>`.
 
    Machine (Proto/RWLock.v): any number of threads; a schedule is any list of
-   (thread, label) steps the reader-writer lock admits; labels: call, acquire,
+   (thread, label) steps the reader-writer lock allows; labels: call, acquire,
    one micro-step of the body, return.  [run (init s0) tr g] ranges over ALL
    schedules.  The atomic machine [arun] performs an operation in one step. *)
 From Coq Require Import String List Bool NArith.
@@ -123,7 +123,7 @@ Proof. exact lock_table_ghost_good. Qed.
 Print Assumptions C18_repo_store_wellformed.
 
 (* non-vacuity of the discipline hypothesis: one downgraded (Lock -> RLock) or
-   dropped lock makes the checker fail AND admits a schedule on which a thread
+   dropped lock makes the checker fail AND allows a schedule on which a thread
    returns a value other than the specification's *)
 Theorem C18_discipline_needed :
   discipline_ok (relock "StoreBatch" LkR lock_table) = false /\
